@@ -4,6 +4,7 @@ from __future__ import annotations
 import ast
 
 from ..astq import U, kwarg, statements, local_defs
+from ..cfg import CFG, header_walk
 from ..effects import rng_draws
 from ..index import AnalysisError, walk_no_nested
 from ..interp import Ext, FuncRef, Obj
@@ -207,6 +208,39 @@ def r7_no_cohort_wide_decision(ctx):
     ctx.extra["C07.R7_tests"] = n_tests
 
 
+def r13_fresh_samplers_every_run(ctx, rid="C07.R13", why="the adapted proposal scales and acceptance histories of the previous cohort carry over, position by position, to the individuals of the next one: "
+                                 "their decisions and estimates then depend on other individuals' data"):
+    """Every run builds its samplers anew: `_initialize_samplers` rebinds `self.samplers` to an empty dictionary before anything is built,
+    and the per-variable construction is not skipped for a sampler that is already there."""
+    ctx.rule(rid, "samplers are rebuilt from scratch at every run (fresh dictionary, no sampler kept from an earlier run)", 2)
+    M = "leaspy.algo.algo_with_samplers"
+    f = ctx.ix.func(M, "AlgorithmWithSamplersMixin._initialize_samplers", rid)
+    ctx.analysed(f)
+    cfg = CFG(f.node)
+    fresh = [n for n, st in cfg.stmt.items() if isinstance(st, (ast.Assign, ast.AnnAssign)) and U(st.targets[0] if isinstance(st, ast.Assign) else st.target) == "self.samplers"
+             and st.value is not None and U(st.value) in ("{}", "dict()")]
+    builders = [n for n, st in cfg.stmt.items() if st is not None and any(isinstance(c, ast.Call) and isinstance(c.func, ast.Attribute) and U(c.func.value) == "self"
+                                                                            and c.func.attr.startswith("_initialize_") and c.func.attr.endswith("_samplers") for c in header_walk(st))]
+    if not builders:
+        ctx.unknown(rid, f, f.node, "the calls building the population / individual samplers are no longer in _initialize_samplers", construct="fresh sampler dictionary")
+    else:
+        ok = bool(fresh) and all(cfg.all_paths_pass(cfg.entry, fresh, end=b) for b in builders)
+        ctx.check(ok, rid, f, cfg.stmt[fresh[0]] if fresh else f.node, "`self.samplers = {}` on every path before the samplers are built",
+                  "`self.samplers` is no longer emptied at the start of a run: an algorithm object run a second time keeps the samplers of the first run - " + why, construct="fresh sampler dictionary")
+    for name in ("_initialize_individual_samplers", "_initialize_population_samplers"):
+        g = ctx.ix.func(M, f"AlgorithmWithSamplersMixin.{name}", rid)
+        ctx.analysed(g)
+        gcfg = CFG(g.node)
+        stores = [n for n, st in gcfg.stmt.items() if isinstance(st, ast.Assign) and any(isinstance(t, ast.Subscript) and U(t.value) == "self.samplers" for t in st.targets)]
+        if not stores:
+            ctx.unknown(rid, g, g.node, f"{name} no longer stores into self.samplers", construct=f"{name}: every sampler built")
+            continue
+        # a test about what is already in self.samplers decides whether a sampler is built
+        conds = [st for st in statements(g.node) if isinstance(st, (ast.If, ast.While)) and ("samplers" in U(st.test) or "_sampler" in U(st.test))]
+        ctx.check(not conds, rid, g, conds[0] if conds else g.node, f"{name}: a sampler is built for every variable, whatever is already there",
+                  f"`{U(conds[0].test)[:70] if conds else ''}` lets {name} keep a sampler that is already present: " + why, construct=f"{name}: every sampler built")
+
+
 def rules(ctx):
     r1_separability(ctx)
     # R1 takes `sum_dim(..., but_dim=LVL_IND)` as "every axis but the individuals is reduced": the helpers' bodies are compared with the confirmed forms
@@ -242,6 +276,7 @@ def rules(ctx):
     # "personalized parameters depend only on that individual's own data": nothing of one cohort stays in the model for the next call -
     # after its cleaning the sampling-based personalisation writes into a clone only (same rule as C13.R3b)
     from .c13 import r3b_after_cleaning
+    r13_fresh_samplers_every_run(ctx)
     r3b_after_cleaning(ctx, state_writes(ctx), rid="C07.R12", why="the model keeps that cohort's data and estimates: the next personalisation on the same model starts every subject from "
                        "another individual's values, so a subject's result depends on the data of others")
     ctx.trust("joblib.Parallel preserves the order of its generator and runs each call on the arguments given")
